@@ -32,6 +32,9 @@ DECIDING_COUNTERS = {'body_markers_located': 500}
 TEMPLATES = ['index [$id, sect$num(4)]', 'index [$id, sect$num(4)]', 'index [$title(3), s$num]', 'index [$title, sect$num(4)]', '[$id-$num(2), f$num(3)]', 'a b c [x$num]', '$jobname-$num(3)', 'all']
 BADCHARS = [None, None, (': #$%^&*!~`"\'=?/{}[]()|<>;\\,.', '-'), (': ', '_'), (':;,. -', 'Z')]
 SETUPS = [('HTML5', 'default'), ('HTML5', 'default'), ('HTML5', 'minimal'), ('XHTML', 'default')]
+# for this check only: a renderer without page templates and layouts (the manual's first example), which takes the other path through
+# Renderable.__str__; headings are not judged under it
+C13_SETUPS = SETUPS + [('Plain', 'none')]
 
 
 def budget(tier):
@@ -97,7 +100,7 @@ def cases(seed, tier, shard, nshards):
                                                ['Ab \u2014 c', 'Ab - c', 'Ab c']])):
                 d['secs'].append({'t': 'sec', 'level': lvl, 'star': False, 'title': [{'t': 'text', 'words': [ttl]}], 'subs': [], 'label': None, 'toc': None,
                                   'c': [{'t': 'para', 'c': [{'t': 'text', 'words': ['Wq%dx' % (9800 + k)]}]}]})
-        setup_ = r.choice(SETUPS)
+        setup_ = r.choice(C13_SETUPS)
         # footnotes with identical text in the first and the last unit: each must still be printed (equal content is not the same footnote)
         same = r.randint(2, 3) if r.random() < 0.3 else 0
         pre = ' '.join('Fn%dz\\footnote{Zf7y same note}' % k for k in range(same - 1)) + ('\n\n' if same else '')
@@ -329,7 +332,7 @@ def run(case, st):
                         break
                 if bad:
                     break
-                if ui and u['title'] and not single:
+                if ui and u['title'] and not single and case['renderer'] != 'Plain':
                     heads = per[fname][1]
                     missing = [m for m in u['title'] if m not in heads and m not in per[fname][2] and m not in u['math']]
                     if missing and u['level'] <= case['level']:
